@@ -276,7 +276,9 @@ pub fn run(cfg: &RunCfg) -> Report {
                 .filter(|(b, _)| {
                     let t1 = &inp.text[toks[*b].start..toks[*b].end];
                     let t2 = &inp.text[toks[*b + 1].start..toks[*b + 1].end];
-                    !(t1 == "." || t2 == "." || t1 == "@" || t2 == "@")
+                    // ... except behind the dot of a class field reference (`CLASS. &field`): X.681 9.x makes the dot and the
+                    // field name two lexical items, and the lexer skips trivia there
+                    (t1 == "." && t2.starts_with('&')) || !(t1 == "." || t2 == "." || t1 == "@" || t2 == "@")
                 })
                 .filter(|(b, g)| separable(&inp.text[toks[*b].start..toks[*b].end], GAPS[*g], &inp.text[toks[*b + 1].start..toks[*b + 1].end]))
                 .collect();
